@@ -49,8 +49,9 @@ var _ = DocPeer{}.dialed
 // from the enclosing object, YAML and TOML from a table named after the type
 // unless the YAML decoder is told to flatten anonymous fields.
 type DocEmb struct {
-	EmbN int    `dials:"emb_n"`
-	EmbS string `dials:"emb_s"`
+	EmbN  int    `dials:"emb_n"`
+	EmbS  string `dials:"emb_s"`
+	EmbIn DocIn  `dials:"emb_in"` // a section inside the embedded struct
 }
 
 // A chain of nested structs, 10 levels deep, with tagged leaves at the bottom.
@@ -151,6 +152,8 @@ type DocVal struct {
 	BigTags    int              `json:"big_tags,omitempty"` // the tags list has this many generated elements (a large document; the elements are not stored in the scenario)
 	EmbN       *int             `json:"emb_n,omitempty"`
 	EmbS       *string          `json:"emb_s,omitempty"`
+	EmbInHost  *string          `json:"emb_in_host,omitempty"`
+	EmbInPort  *int             `json:"emb_in_port,omitempty"`
 	Whens      []string         `json:"whens,omitempty"`
 	PWaitsNS   []int64          `json:"p_waits_ns,omitempty"`
 	DeepLabel  *string          `json:"deep_label,omitempty"`
@@ -295,6 +298,12 @@ func (g *gen) docVal(p int) DocVal {
 	}
 	if g.pct(p / 2) {
 		v.EmbS = sp(fmt.Sprintf("emb%d", n))
+	}
+	if g.pct(p / 3) {
+		v.EmbInHost = sp(fmt.Sprintf("embhost%d", n))
+	}
+	if g.pct(p / 3) {
+		v.EmbInPort = ip(7000 + n)
 	}
 	if v.Tags == nil && g.pct(10) {
 		v.Tags, v.EmptyTags = []string{}, true
@@ -463,6 +472,12 @@ func (v *DocVal) expected(def *DocVal) *CfgDoc {
 		}
 		if l.EmbS != nil {
 			c.EmbS = *l.EmbS
+		}
+		if l.EmbInHost != nil {
+			c.EmbIn.Host = *l.EmbInHost
+		}
+		if l.EmbInPort != nil {
+			c.EmbIn.Port = *l.EmbInPort
 		}
 		if l.WaitsNS != nil {
 			c.Waits = []time.Duration{}
@@ -692,6 +707,23 @@ func (v *DocVal) renderDoc(format string) string {
 	}
 	if v.EmbS != nil {
 		emb = append(emb, kv{"emb_s", strconv.Quote(*v.EmbS)})
+	}
+	if v.EmbInHost != nil || v.EmbInPort != nil {
+		q, eq := func(k string) string { return k }, ": "
+		switch baseFormat(format) {
+		case "json":
+			q = strconv.Quote
+		case "toml":
+			eq = " = "
+		}
+		var parts []string
+		if v.EmbInHost != nil {
+			parts = append(parts, q("host_name")+eq+strconv.Quote(*v.EmbInHost))
+		}
+		if v.EmbInPort != nil {
+			parts = append(parts, q("portNum")+eq+strconv.Itoa(*v.EmbInPort))
+		}
+		emb = append(emb, kv{"emb_in", "{" + strings.Join(parts, ", ") + "}"})
 	}
 	var deep []kv
 	if v.DeepLabel != nil {
@@ -1207,7 +1239,7 @@ func (r *streamRun) checkUnset(format string, val reflect.Value, v *DocVal, doc 
 		"Name": v.Name == nil, "Count": v.Count == nil, "Ratio": v.Ratio == nil, "On": v.On == nil, "Wait": v.WaitNS == nil,
 		"When": v.When == nil, "Tags": v.Tags == nil, "Nums": v.Nums == nil, "Limits": v.Limits == nil, "Set": v.Set == nil,
 		"In": v.InHost == nil && v.InPort == nil, "PIn": v.PInHost == nil && v.PInPort == nil && !v.PInEmpty, "IP": v.IP == nil, "Peers": v.Peers == nil, "Alt": v.Alt == nil, "Waits": v.WaitsNS == nil, "Timeouts": v.TimeoutNS == nil,
-		"DocEmb": v.EmbN == nil && v.EmbS == nil, "Whens": v.Whens == nil, "PWaits": v.PWaitsNS == nil, "Deep": v.DeepLabel == nil && v.DeepWaitNS == nil,
+		"DocEmb": v.EmbN == nil && v.EmbS == nil && v.EmbInHost == nil && v.EmbInPort == nil, "Whens": v.Whens == nil, "PWaits": v.PWaitsNS == nil, "Deep": v.DeepLabel == nil && v.DeepWaitNS == nil,
 	}
 	names := make([]string, 0, len(want))
 	for n := range want {
